@@ -52,7 +52,7 @@ CHECKS = {
             "DESIGN.md 4/C14"),
     "C05": ("fault_enumeration",
             "exhaustive crash-point enumeration over the numbered file-system effect history of the real runtime, restart through the real re-attach path",
-            "For 12 pipeline shapes the uninterrupted run on the real runtime gives a history of N numbered file-system effects (mrp's, via mechanically rewritten os.* calls, and the model jobs'); for EVERY n the process is made to die at effect n (plus torn variants of plain writes), the stale lock is removed and a second incarnation goes through ReattachToPipestance/Reset/RestartLocalJobs/LoadMetadata and the run loop; it must complete with the reference outputs and must not re-execute jobs whose completion marker had been written. For EVERY n also the handled-signal variant: a termination signal arrives before effect n, the process keeps running while a critical section is open, then the registered handlers (Pipestance.HandleSignal) run and the process is dead; _lock must be gone without operator help and the restart must succeed with the same oracles. Thorough adds a second crash at every effect of the restart for two shapes.",
+            "For 12 pipeline shapes the uninterrupted run on the real runtime gives a history of N numbered file-system effects (mrp's, via mechanically rewritten os.* calls, and the model jobs'); for EVERY n the process is made to die at effect n (plus torn variants of plain writes), the stale lock is removed and a second incarnation goes through ReattachToPipestance/Reset/RestartLocalJobs/LoadMetadata and the run loop; it must complete with the reference outputs and must not re-execute jobs whose completion marker had been written. For EVERY n also the handled-signal variant: a termination signal arrives before effect n, the process keeps running while a critical section is open, then the registered handlers (Pipestance.HandleSignal) run and the process is dead; _lock must be gone without operator help and the restart must succeed with the same oracles. Every interruption (kill and handled signal) is run twice: with the running jobs vanishing without a trace, and with their monitors recording '_errors: Caught signal terminated' as mrjob does on SIGTERM. Thorough adds a second crash at every effect of the restart for two shapes.",
             "crash granularity = file-system call (no fsync/block model); in-flight local jobs die with mrp and recorded pids are dead; handled signals are delivered between file-system effects with the handler goroutine's work (wait for critical sections, run registered handlers) executed synchronously by the harness; os.Exit is the simulated death; the real mrp binary and OS signal delivery are not in the loop",
             "DESIGN.md 4/C05"),
     "C06": ("fault_enumeration",
